@@ -115,13 +115,22 @@ def finish(res, tier, level, info, wall_s, explanation, checker_cmd, seed=0, ext
     os.makedirs(rep_dir, exist_ok=True)
     new = []
     kn = []
+    RM = "[release-mir] "
     for v in res.violations:
-        if v.key in known:
+        # the same construct seen again on the release-like extraction of the thorough tier is the same finding
+        base = v.key[len(RM):] if v.key.startswith(RM) else v.key
+        if base in known:
+            v.known_as = base
             kn.append(v)
         else:
             new.append(v)
+    printed = set()
     for v in kn:
-        print("KNOWN-FINDING: property=%s %s [%s] %s" % (pid, known[v.key].get("what", v.msg), v.key, v.loc or ""))
+        if v.known_as in printed:
+            continue
+        printed.add(v.known_as)
+        v_key = v.known_as
+        print("KNOWN-FINDING: property=%s %s [%s] %s" % (pid, known[v_key].get("what", v.msg), v_key, v.loc or ""))
     for v in new:
         path = os.path.join(rep_dir, "%s-%s.json" % (pid, safe_name(v.key)))
         with open(path, "w") as fh:
